@@ -60,6 +60,10 @@ func addPathToTree(path string, value *configapi.TypedValue, nodeif *interface{}
 		return fmt.Errorf("could not convert nodeif %v for %s", *nodeif, path)
 	}
 
+	if len(pathelems) == 0 {
+		return fmt.Errorf("path %s has no elements", path)
+	}
+
 	if len(pathelems) == 1 {
 		// At the end of a line - this is the leaf
 		handleLeafValue(nodemap, value, pathelems, jsonRFC7951)
@@ -95,6 +99,10 @@ func addPathToTree(path string, value *configapi.TypedValue, nodeif *interface{}
 
 			// position to look at next potential key string
 			keyString = keyString[brktIdx2+1:]
+		}
+		if len(keyMap) == 0 {
+			// A list entry is identified by its keys: without any there is no entry to find or to create
+			return fmt.Errorf("malformed list element %s in %s: no key", pathelems[0], path)
 		}
 
 		listSlice, ok := nodemap[listName]
